@@ -63,7 +63,7 @@ Event ==
                                      /\ ph' = [ph EXCEPT ![r.c] = "none"] /\ UNCHANGED <<b, call, tickp>>
                   [] r.ev = "tickreq" -> ~tickp /\ tickp' = TRUE /\ UNCHANGED <<b, call, ph>>
                   [] r.ev = "tickdone" -> ~tickp /\ UNCHANGED <<b, call, ph, tickp>>
-                  [] r.ev = "final" -> Snap(b) = r.snap /\ PrintT(<<"EXPLAINED", l>>) /\ UNCHANGED <<b, call, ph, tickp>>
+                  [] r.ev = "final" -> Snap(Lazy(S0(b, call)).b) = Snap(Lazy(S0(r.snap, call)).b) /\ PrintT(<<"EXPLAINED", l>>) /\ UNCHANGED <<b, call, ph, tickp>>
    /\ Keep /\ Consume
 
 TNext == Event \/ DoTick \/ \E c \in Calls : DoBefore(c) \/ DoAfter(c)
